@@ -1,0 +1,92 @@
+//go:build verif
+
+package agent
+
+import (
+	"github.com/postalsys/muti-metroo/internal/exit"
+	"github.com/postalsys/muti-metroo/internal/flood"
+	"github.com/postalsys/muti-metroo/internal/forward"
+	"github.com/postalsys/muti-metroo/internal/peer"
+	"github.com/postalsys/muti-metroo/internal/routing"
+	"github.com/postalsys/muti-metroo/internal/sleep"
+	"github.com/postalsys/muti-metroo/internal/stream"
+	"github.com/postalsys/muti-metroo/internal/udp"
+)
+
+// Read-only accessors for the verification harness (build tag verif only).
+
+func (a *Agent) VerifRouteManager() *routing.Manager   { return a.routeMgr }
+func (a *Agent) VerifPeerManager() *peer.Manager       { return a.peerMgr }
+func (a *Agent) VerifFlooder() *flood.Flooder          { return a.flooder }
+func (a *Agent) VerifStreamManager() *stream.Manager   { return a.streamMgr }
+func (a *Agent) VerifForwardHandler() *forward.Handler { return a.forwardHandler }
+func (a *Agent) VerifUDPHandler() *udp.Handler         { return a.udpHandler }
+func (a *Agent) VerifSleepManager() *sleep.Manager     { return a.sleepMgr }
+
+func (a *Agent) VerifExitHandler() *exit.Handler {
+	a.exitHandlerMu.Lock()
+	defer a.exitHandlerMu.Unlock()
+	return a.exitHandler
+}
+
+// VerifRelaySizes reports, per relay table (tcp, udp, icmp), the sizes of the
+// two indices; a consistent table has equal sizes.
+func (a *Agent) VerifRelaySizes() map[string][2]int {
+	out := map[string][2]int{}
+	for name, t := range map[string]*relayTable{"tcp": a.tcpRelay, "udp": a.udpRelay, "icmp": a.icmpRelay} {
+		t.mu.RLock()
+		out[name] = [2]int{len(t.byUpstream), len(t.byDownstream)}
+		t.mu.RUnlock()
+	}
+	return out
+}
+
+// VerifRelayIndexConsistent reports whether every entry of every relay table is
+// indexed under both of its keys.
+func (a *Agent) VerifRelayIndexConsistent() bool {
+	for _, t := range []*relayTable{a.tcpRelay, a.udpRelay, a.icmpRelay} {
+		t.mu.RLock()
+		ok := len(t.byUpstream) == len(t.byDownstream)
+		for id, e := range t.byUpstream {
+			if e.UpstreamID != id || t.byDownstream[e.DownstreamID] != e {
+				ok = false
+			}
+		}
+		for id, e := range t.byDownstream {
+			if e.DownstreamID != id || t.byUpstream[e.UpstreamID] != e {
+				ok = false
+			}
+		}
+		t.mu.RUnlock()
+		if !ok {
+			return false
+		}
+	}
+	return true
+}
+
+// VerifControlTableSizes returns the number of pending and forwarded control requests.
+func (a *Agent) VerifControlTableSizes() (pending, forwarded int) {
+	a.controlMu.RLock()
+	defer a.controlMu.RUnlock()
+	return len(a.pendingControl), len(a.forwardedControl)
+}
+
+// VerifBookkeepingSizes returns the sizes of the remaining per-tunnel maps.
+func (a *Agent) VerifBookkeepingSizes() map[string]int {
+	out := map[string]int{}
+	a.fileStreamsMu.RLock()
+	out["file_streams"] = len(a.fileStreams)
+	a.fileStreamsMu.RUnlock()
+	a.shellClientMu.RLock()
+	out["shell_client_streams"] = len(a.shellClientStreams)
+	a.shellClientMu.RUnlock()
+	a.udpIngressMu.RLock()
+	out["udp_ingress_base"] = len(a.udpIngressByBase)
+	out["udp_ingress_local"] = len(a.udpIngressByLocalStream)
+	a.udpIngressMu.RUnlock()
+	a.icmpIngressMu.RLock()
+	out["icmp_ingress"] = len(a.icmpIngressByStream)
+	a.icmpIngressMu.RUnlock()
+	return out
+}
